@@ -272,3 +272,50 @@ Proof.
   rewrite <- (map_length G.TestInstanceWithSettings_instance), gen_priority_queue_is_model.
   unfold list_view. cbn [G.TestList_iter_tests]. apply map_length.
 Qed.
+
+(* ---------------------------------------------------------------- the stream of TestRunnerInner::execute (Model/ExecuteStream.v, Model/Run.v, C02 / C08 / C14) *)
+(* == block conv_stream (needs conv_listed) == *)
+Definition tr_of_model (r : MC.threads_required) : G.ThreadsRequired :=
+  match r with
+  | MC.RCount n => G.ThreadsRequired_Count n
+  | MC.RNumCpus => G.ThreadsRequired_NumCpus
+  | MC.RNumTestThreads => G.ThreadsRequired_NumTestThreads
+  end.
+Definition group_of_model (g : option N) : G.TestGroup :=
+  match g with Some n => G.TestGroup_Custom n | None => G.TestGroup_Global end.
+(* an entry of the priority queue as the stream's closures see it ([tok]: its settings, an opaque token) *)
+Definition entry_view (l : ME.listed) (tok : N) : G.TestInstanceWithSettings :=
+  G.mk_TestInstanceWithSettings (instance_view l) tok.
+
+(* == block execute_filter_stage (needs conv_listed conv_stream) == *)
+(* the filter_map stage: a mismatch sends Skipped and yields nothing for the scheduler; a match sends nothing and hands
+   the test on unchanged *)
+Module SLs. Import Coq.Strings.String.
+  Definition skipped : string := "Skipped"%string.
+End SLs.
+Lemma gen_execute_filter_stage_is_model :
+  forall rt nc l tok,
+    G.execute_filter_stage (entry_view l tok) =
+    ((if ME.entry_skipped (ME.stream_entry rt nc l) then [SLs.skipped] else []),
+     (match ME.entry_item (ME.stream_entry rt nc l) with Some _ => Some (entry_view l tok) | None => None end)).
+Proof. intros rt nc l tok. destruct l as [id m th g]. destruct m as [|r]; [|destruct r]; bridge. Qed.
+
+(* == block execute_item (needs conv_listed conv_stream) == *)
+(* the (weight, group, future) triple of the map stage: the weight is ThreadsRequired::compute against the runner's
+   thread count whatever the group (the cap by the group's max-threads is future_queue_grouped's), the group is the
+   test's *)
+Lemma gen_execute_weight_is_model :
+  forall r rt g nc, G.execute_weight (tr_of_model r) rt g nc = MC.threads_required_weight r rt nc.
+Proof. bridge. Qed.
+Lemma gen_execute_group_is_model :
+  forall r rt g, G.execute_group r rt (group_of_model g) = g.
+Proof. bridge. Qed.
+Lemma gen_execute_item_is_model :
+  forall rt nc l it,
+    ME.entry_item (ME.stream_entry rt nc l) = Some it ->
+    MQ.it_w it = G.execute_weight (tr_of_model (ME.l_threads l)) rt (group_of_model (ME.l_group l)) nc /\
+    MQ.it_grp it = G.execute_group (tr_of_model (ME.l_threads l)) rt (group_of_model (ME.l_group l)).
+Proof.
+  intros rt nc l it H. destruct (PE.stream_weight_uncapped rt nc l it H) as (W & Gp & _).
+  rewrite gen_execute_weight_is_model, gen_execute_group_is_model. split; assumption.
+Qed.
